@@ -44,6 +44,7 @@ type cmafIngesterMgr struct {
 
 type cmafIngester struct {
 	mgr            *cmafIngesterMgr
+	client         *http.Client // One client (connection pool) per session, so that cancelling a session cannot disturb requests of another one
 	user           string
 	passWord       string
 	destRoot       string
@@ -231,6 +232,7 @@ func (cm *cmafIngesterMgr) NewCmafIngester(req CmafIngesterSetup) (nr uint64, er
 		state:          ingesterStateNotStarted,
 		nextSegTrigger: make(chan struct{}),
 		done:           make(chan struct{}),
+		client:         newIngestHTTPClient(),
 	}
 	if c.dur != nil {
 		c.nrSegsToSend = m.Ptr(*c.dur * 1000 / asset.SegmentDurMS)
@@ -240,6 +242,14 @@ func (cm *cmafIngesterMgr) NewCmafIngester(req CmafIngesterSetup) (nr uint64, er
 	cm.mu.Unlock()
 
 	return nr, nil
+}
+
+// newIngestHTTPClient returns an HTTP client with a connection pool of its own.
+func newIngestHTTPClient() *http.Client {
+	if tr, ok := http.DefaultTransport.(*http.Transport); ok {
+		return &http.Client{Transport: tr.Clone()}
+	}
+	return &http.Client{}
 }
 
 func (cm *cmafIngesterMgr) startIngester(nr uint64) {
@@ -281,6 +291,7 @@ func (c *cmafIngester) start(ctx context.Context) {
 	defer func() {
 		c.setState(ingesterStateStopped)
 		close(c.done)
+		c.client.CloseIdleConnections()
 	}()
 
 	// Finally we should send off the init segments
@@ -537,7 +548,7 @@ func (c *cmafIngester) sendInitSegment(ctx context.Context, rd cmafRepData, rawI
 }
 
 func (c *cmafIngester) sendRequest(ctx context.Context, req *http.Request, url string) error {
-	resp, err := http.DefaultClient.Do(req)
+	resp, err := c.client.Do(req)
 	if err != nil {
 		return fmt.Errorf("Error sending request: %w", err)
 	}
@@ -640,6 +651,7 @@ func (c *cmafIngester) sendMediaSegment(ctx context.Context, wg *sync.WaitGroup,
 	defer close(finishedSendCh)
 
 	src := newCmafSource(nrBytesCh, writeMoreCh, c.log, u, contentType, c.user, c.passWord, c.useChunked)
+	src.client = c.client
 
 	// Create media segment based on number and send it to segPath
 	if c.useChunked {
@@ -694,6 +706,7 @@ func (c *cmafIngester) sendMediaSegment(ctx context.Context, wg *sync.WaitGroup,
 // It provides a Read method that the client can use to read the data.
 // If useChunked, the data is sent in chunks, otherwise as a whole using Content-Length.
 type cmafSource struct {
+	client      *http.Client
 	ctx         context.Context
 	req         *http.Request
 	contentType string
@@ -741,7 +754,7 @@ func (cs *cmafSource) startReadAndSendChunked(ctx context.Context, finishedCh ch
 	}
 	setReqHeaders(req, cs.contentType, cs.user, cs.password)
 	cs.req = req
-	resp, err := http.DefaultClient.Do(req)
+	resp, err := cs.client.Do(req)
 	if err != nil {
 		cs.log.Error("creating request", "err", err)
 		return
